@@ -204,7 +204,7 @@ def trace_inputs(trace):
         if st.get("stepType") == "assignment" and not st.get("hidden"):
             lhs = st.get("lhs", "")
             fn = st.get("sourceLocation", {}).get("function", "")
-            if lhs.startswith("verif_in") or fn.startswith("harness") or fn.startswith("h_"):
+            if lhs.startswith("verif_in") or lhs.startswith("en_") or fn.startswith("harness") or fn.startswith("h_"):
                 v = st.get("value", {})
                 vals[lhs] = v.get("data", v.get("name"))
     return vals
@@ -272,6 +272,11 @@ def main():
     seed = int(os.environ.get("VERIF_SEED", "0") or 0)
     t0 = time.time()
     spec = json.load(open(os.path.join(VERIF, "obligations", prop + ".json")))
+    if spec.get("runs_generator"):
+        g = subprocess.run([os.path.join(VERIF, spec["runs_generator"])], stdout=subprocess.PIPE, stderr=subprocess.PIPE)
+        if g.returncode != 0:
+            print("TOOL-ERROR property=%s run list generator failed: %s" % (prop, g.stderr.decode()[-500:])); sys.exit(2)
+        spec["runs"] = spec.get("runs", []) + json.loads(g.stdout.decode())
     runs = []
     for rs in spec["runs"]:
         if args.only and not re.search(args.only, rs["id"]): continue
